@@ -43,6 +43,7 @@ class Sync:
         self.bitwords = {}
         self.consts = {}          # declaration id -> int: helper parameters bound to a constant at the followed call site
         self.this_alias = set()   # parameters / reference members of followed helper objects that designate the analysed *this
+        self.field_map = {}       # (nested record, member) -> canonical (record, member) it stands for
         self.ref_alias = {}       # reference parameter of a followed helper -> the argument expression it is bound to
 
     # ------------------------------------------------------------------ packed flags
@@ -216,7 +217,8 @@ class Sync:
         s = tu.sd(e)
         if s.get('k') != 'member' or 'fi' not in s:
             return None
-        return (s.get('rec'), e.get('name'))
+        key = (s.get('rec'), e.get('name'))
+        return self.field_map.get(key, key)     # members of a nested state class stand for the canonical members
 
     def deref_alias(self, e, depth=0):
         """a reference parameter of a followed helper stands for the expression it was bound to at the call"""
